@@ -96,36 +96,35 @@ def run(ctx):
                                                    None else None),
               loc=m.loc(hi, calls[0]))
     parse = m.fn(PC + ".parse")
-    # parse(): the variable handed to handle_directive is the one that
-    # start_section/end_section rebind (the current section)
-    cur = None
-    for n in walk_shallow(parse.node):
-        if isinstance(n, ast.Assign) and isinstance(n.value, ast.Call) \
-                and isinstance(n.value.func, ast.Attribute) \
-                and n.value.func.attr == "start_section" \
-                and isinstance(n.targets[0], ast.Name):
-            cur = n.targets[0].id
-    dcalls = [n for n in walk_shallow(parse.node) if isinstance(n, ast.Call)
-              and isinstance(n.func, ast.Attribute)
-              and n.func.attr == "handle_directive"]
-    run.check(cur is not None and len(dcalls) == 1 and dcalls[0].args
-              and isinstance(dcalls[0].args[0], ast.Name)
-              and dcalls[0].args[0].id == cur, "C06.R3", parse.qualname,
+    # parse(): what handle_directive receives on the line after an opener or
+    # closer is that call's result (the current section), otherwise parse()'s
+    # own section -- decided on the interpreted two-line paths
+    from rules import c03
+    from zcstatic import absint as A_
+    _, rows = c03.section_threading(ctx)
+    drows = [r for r in rows if r[1] == "handle_directive"]
+    bad = [r for r in drows if not r[4]]
+    run.check(len(drows) >= 3 and not bad, "C06.R3", parse.qualname,
               "directive receives the current section",
-              "handle_directive is called with the variable that openers and "
-              "closers rebind (%s)" % cur,
-              "handle_directive is not called with the current-section "
-              "variable", loc=m.loc(parse, parse.node))
+              "on all %d two-line paths handle_directive receives the "
+              "section the previous line left current" % len(drows),
+              "handle_directive is not called with the current section: "
+              + "; ".join("after %s it receives %s, expected %s"
+                          % (r[0], A_.fmt(r[2]), A_.fmt(r[3]))
+                          for r in bad[:3]) if bad else
+              "no two-line path reaches handle_directive",
+              loc=m.loc(parse, parse.node))
     hd = m.fn(PC + ".handle_directive")
     r = X.compare(P, hd, X.spec_method(P, ref, "handle_directive", PC),
                   live_kw={"try_raises": False}, ref_kw={"try_raises": False})
     _verdict(run, "C06.R3", hd, "directive handler gets (section, argument) "
              "unchanged", r, m)
-    from rules import c03
-    rb = c03._rebinds_section(parse, "handle_directive")
-    run.check(rb is False, "C06.R3", parse.qualname,
+    after = [r for r in rows if r[0] == "handle_directive"]
+    bad = [r for r in after if not r[4]]
+    run.check(len(after) >= 3 and not bad, "C06.R3", parse.qualname,
               "directive does not rebind the current section",
-              "parse() ignores the result of handle_directive",
+              "the line after a directive is handled in parse()'s unchanged "
+              "current section (%d two-line paths)" % len(after),
               "parse() rebinds the current section from the result of a "
               "directive", loc=m.loc(parse, parse.node))
 
